@@ -13,8 +13,8 @@
     [__cause__] is decided on the implementation by harness/props/c12.py. *)
 From Coq Require Import List NArith ZArith Bool Lia.
 Import ListNotations.
-From LV Require Import Model.Base Model.Template Model.Eval Model.Derived
-  Proofs.BaseProofs Proofs.EvalProofs Proofs.EvalInd Proofs.TraceProofs.
+From LV Require Import Model.Base Model.Template Model.Eval Model.Derived Model.EvalRun
+  Proofs.BaseProofs Proofs.EvalProofs Proofs.EvalInd Proofs.FrameProofs Proofs.TraceProofs.
 
 Section C12.
   Variable S : Type.
@@ -426,4 +426,551 @@ Section C12.
     (N.eqb t T_ITER || N.eqb t T_LIST || N.eqb t T_TUPLE) = true -> first_err vs = Some c ->
     force_elems S (VT t vs) s = (Err c true, s, []).
   Proof. intros Ht Hf. unfold force_elems, elements_of. rewrite Ht, Hf. reflexivity. Qed.
+
+  (** ** The statements of the property, assembled *)
+
+  (** every error leaving [eval] is an EvaluationError *)
+  Theorem eval_error_is_evaluation_error e o s c ee s' l :
+    eval e o s = (Err c ee, s', l) -> ee = true.
+  Proof. apply eval_err_true. Qed.
+
+  (** a missing option, anywhere below [e] in strict position, is reported with ITS key *)
+  Theorem missing_option_reports_its_key e o s k dom ox sx lpre :
+    strict_path e o s (EOption k None dom) ox sx lpre -> lookup k (JObj ox) = Absent ->
+    eval e o s = (Err (CKey k) true, sx, lpre ++ [EvRead k false]).
+  Proof.
+    intros Hp Ha. eapply cause_is_original; [exact Hp|].
+    apply (eval_option_absent_nodefault S mem_find mem_store cfg ucall rfuel site_ok). exact Ha.
+  Qed.
+
+  (** a present option whose templated value references an absent key: THAT key is reported *)
+  Theorem missing_reference_reports_its_key e o s k dflt dom raw k' ox sx lpre :
+    strict_path e o s (EOption k dflt dom) ox sx lpre ->
+    lookup k (JObj ox) = Found raw -> resolve rfuel ox raw = RMissing k' ->
+    exists l, eval e o s = (Err (CKey k') true, sx, lpre ++ l).
+  Proof.
+    intros Hp Hf Hr.
+    destruct (eval_option_missing_reference S mem_find mem_store cfg ucall rfuel site_ok
+                k dflt dom raw k' ox sx Hf Hr) as [l [Hl _]].
+    exists l. eapply cause_is_original; eauto.
+  Qed.
+
+  (** an exception raised by user code in a body, anywhere below [e] in strict position, is
+      the cause [e] reports; the body ran exactly where it should (last event) *)
+  Theorem user_exception_reaches_the_top e o s fe args kwargs ox sx lpre fid pre post s1 l1 av s2 l2 kv s3 l3 n :
+    strict_path e o s (ECall false fe args kwargs) ox sx lpre ->
+    eval fe ox sx = (Ok (VF fid pre post), s1, l1) ->
+    mapM S (fun y => eval y ox) args s1 = (Ok av, s2, l2) ->
+    mapM S (fun y => eval y ox) kwargs s2 = (Ok kv, s3, l3) ->
+    N.eqb fid B_COMPOSE = false -> user_fun fid = true ->
+    deep_err_list (pre ++ (av ++ kv) ++ post) = None ->
+    ucall fid (map listify (pre ++ (av ++ kv) ++ post)) = CRaise n ->
+    eval e o s = (Err (CUser n) true, s3,
+                  lpre ++ l1 ++ l2 ++ l3 ++ [EvCall fid (map listify (pre ++ (av ++ kv) ++ post))]).
+  Proof.
+    intros Hp H1 H2 H3 Hc Hu Hd Hr. eapply cause_is_original; [exact Hp|].
+    eapply raise_user_in_body; eauto.
+  Qed.
+
+  (** an unmatched switch / case below [e] in strict position *)
+  Theorem unmatched_switch_reaches_the_top e o s disp tbl ox sx lpre k s1 l1 :
+    strict_path e o s (ESwitch disp tbl None) ox sx lpre ->
+    eval disp ox sx = (Ok k, s1, l1) -> hashable k = true -> assoc_v k tbl = None ->
+    eval e o s = (Err CSwitch true, s1, lpre ++ l1).
+  Proof. intros Hp H Hh Ha. eapply cause_is_original; [exact Hp|]. eapply raise_switch; eauto. Qed.
+  Theorem unmatched_case_reaches_the_top e o s disp cases ox sx lpre x s1 l1 s2 l2 :
+    strict_path e o s (ECase disp cases None) ox sx lpre ->
+    eval disp ox sx = (Ok x, s1, l1) -> conds_false ox x cases s1 s2 l2 ->
+    eval e o s = (Err CCase true, s2, lpre ++ l1 ++ l2).
+  Proof. intros Hp H Hc. eapply cause_is_original; [exact Hp|]. eapply raise_case; eauto. Qed.
+
+  (** ** The handlers *)
+  (** Switch: ONLY an EvaluationError of the dispatch makes it use the default … *)
+  Theorem switch_falls_back_on_dispatch_failure disp tbl d o s c s1 l1 :
+    eval disp o s = (Err c true, s1, l1) -> c <> CUnmodelled ->
+    eval (ESwitch disp tbl (Some d)) o s = after l1 (eval d o s1).
+  Proof.
+    intros H Hne. rewrite eval_switch_E, wrap_eval_out. cbn [is_some].
+    bok (dispatch_fallback _ _ _ _ _ H Hne). cbn [dflt_or]. rewrite wrap_after. now rewrite wrap_out_eval.
+  Qed.
+  (** … an exception that is not an EvaluationError goes through the dispatch handler … *)
+  Theorem dispatch_handler_lets_raw_errors_through (m : M value) b s c s1 l1 :
+    m s = (Err c false, s1, l1) -> dispatch_value S m b s = (Err c false, s1, l1).
+  Proof.
+    intros H. unfold dispatch_value.
+    assert (Hb : bind m (fun k => ret (Some k)) s = (Err c false, s1, l1)) by (now berr H).
+    assert (Hc : c = CUnmodelled \/ c <> CUnmodelled)
+      by (destruct c; first [now left|right; discriminate]).
+    destruct Hc as [->|Hne].
+    - now rewrite (catch_unmodE S _ _ _ _ _ _ Hb).
+    - rewrite (catch_errE S _ _ _ _ _ _ _ Hb Hne). cbn [andb]. unfold after. cbn. now rewrite app_nil_r.
+  Qed.
+  (** … a dispatch value that cannot be looked up (unhashable) is not caught either … *)
+  Theorem switch_unhashable_dispatch_fails disp tbl dflt o s k s1 l1 :
+    eval disp o s = (Ok k, s1, l1) -> hashable k = false ->
+    eval (ESwitch disp tbl dflt) o s = (Err CType true, s1, l1).
+  Proof.
+    intros H Hh. rewrite eval_switch_E, wrap_eval_out. bok (dispatch_ok _ (is_some dflt) _ _ _ _ H).
+    rewrite Hh. cbn [negb]. fin.
+  Qed.
+  (** … and neither is the failure of the chosen branch, default or not *)
+  Theorem switch_branch_failure_is_not_caught disp tbl dflt o s k s1 l1 b c ee s2 l2 :
+    eval disp o s = (Ok k, s1, l1) -> hashable k = true -> assoc_v k tbl = Some b ->
+    eval b o s1 = (Err c ee, s2, l2) ->
+    eval (ESwitch disp tbl dflt) o s = (Err c true, s2, l1 ++ l2).
+  Proof. intros H Hh Ha Hb. eapply strict_pos_propagates; [eapply sp_switch_branch; eauto|exact Hb]. Qed.
+
+  (** Coalesce: the attempt on a member is validate-then-evaluate *)
+  Definition attempt (o : dict) (m : expr) : M value := bind (validate m o) (fun _ => eval m o).
+
+  (** the first member whose attempt succeeds gives the value; members before it were passed
+      over because their attempts raised EvaluationErrors ([skipped]) *)
+  Theorem coalesce_first_success o pre m post s s1 l1 v s2 l2 :
+    skipped o pre s s1 l1 -> attempt o m s1 = (Ok v, s2, l2) ->
+    eval (ECoalesce (pre ++ m :: post)) o s = (Ok v, s2, l1 ++ l2).
+  Proof.
+    intros Hs Hm. rewrite eval_coalesce_E, wrap_eval_out.
+    destruct (coal_loop_skip o pre (m :: post) _ _ _ Hs None) as [last' E]. rewrite E.
+    cbn [TraceProofs.coal_loop]. unfold attempt in Hm. rewrite (catch_okE S _ _ _ _ _ _ Hm). fin.
+  Qed.
+  (** an exception that is NOT an EvaluationError (validate re-raises whatever it meets) ends
+      the coalesce: later members are not tried *)
+  Theorem coalesce_raw_error_propagates o pre m post s s1 l1 c s2 l2 :
+    skipped o pre s s1 l1 -> attempt o m s1 = (Err c false, s2, l2) ->
+    eval (ECoalesce (pre ++ m :: post)) o s = (Err c true, s2, l1 ++ l2).
+  Proof.
+    intros Hs Hm. rewrite eval_coalesce_E, wrap_eval_out.
+    destruct (coal_loop_skip o pre (m :: post) _ _ _ Hs None) as [last' E]. rewrite E.
+    cbn [TraceProofs.coal_loop]. unfold attempt in Hm.
+    assert (Hc : c = CUnmodelled \/ c <> CUnmodelled)
+      by (destruct c; first [now left|right; discriminate]).
+    destruct Hc as [->|Hne].
+    - rewrite (catch_unmodE S _ _ _ _ _ _ Hm). fin.
+    - rewrite (catch_errE S _ _ _ _ _ _ _ Hm Hne). cbv iota. fin.
+  Qed.
+  (** when every member fails, the error of the LAST one is what surfaces (root of D20) *)
+  Theorem coalesce_reports_last_member o pre m s s1 l1 c ee s2 l2 :
+    skipped o pre s s1 l1 -> attempt o m s1 = (Err c ee, s2, l2) ->
+    eval (ECoalesce (pre ++ [m])) o s = (Err c true, s2, l1 ++ l2).
+  Proof.
+    intros Hs Hm. rewrite eval_coalesce_E, wrap_eval_out.
+    destruct (coal_loop_skip o pre [m] _ _ _ Hs None) as [last' E]. rewrite E.
+    cbn [TraceProofs.coal_loop]. unfold attempt in Hm.
+    assert (Hc : c = CUnmodelled \/ c <> CUnmodelled)
+      by (destruct c; first [now left|right; discriminate]).
+    destruct Hc as [->|Hne].
+    - rewrite (catch_unmodE S _ _ _ _ _ _ Hm). fin.
+    - rewrite (catch_errE S _ _ _ _ _ _ _ Hm Hne). destruct ee; cbv iota; fin.
+  Qed.
+
+  (** Iter: elements before the failing one evaluated, none of them lazily failing *)
+  Inductive elems_ok (o : dict) : list expr -> S -> list value -> S -> list event -> Prop :=
+  | eo_nil s : elems_ok o [] s [] s []
+  | eo_cons x rest s v s1 l1 vs s2 l2 :
+      eval x o s = (Ok v, s1, l1) -> deep_err v = None -> elems_ok o rest s1 vs s2 l2 ->
+      elems_ok o (x :: rest) s (v :: vs) s2 (l1 ++ l2).
+
+  Lemma iter_defers o pre x post s vs s1 l1 c ee s2 l2 :
+    elems_ok o pre s vs s1 l1 -> eval x o s1 = (Err c ee, s2, l2) -> c <> CUnmodelled ->
+    iter_loop o (pre ++ x :: post) s = (Ok (vs ++ [VErr c]), s2, l1 ++ l2).
+  Proof.
+    intros Hpre Hx Hc. induction Hpre as [s|y rest s v sa la vs sb lb Hy Hd Hrest IH].
+    - cbn [app]. now apply iter_defers_head with (ee := ee).
+    - specialize (IH Hx). cbn [app TraceProofs.iter_loop].
+      assert (Hb : bind (eval y o) (fun v => if is_some (deep_err v) then ret [v]
+                     else bind (iter_loop o (rest ++ x :: post)) (fun vs => ret (v :: vs))) s
+                   = (Ok (v :: vs ++ [VErr c]), s2, la ++ lb ++ l2)).
+      { bok Hy. rewrite Hd. cbn [is_some]. bok IH. fin. }
+      rewrite (catch_okE S _ _ _ _ _ _ Hb). now rewrite <- app_assoc.
+  Qed.
+
+  (** the evaluation of an Iter does not fail when an element does: the failure is kept in the
+      iterable, the elements after it are never evaluated *)
+  Theorem iter_element_failure_is_deferred o pre x post s vs s1 l1 c ee s2 l2 :
+    elems_ok o pre s vs s1 l1 -> eval x o s1 = (Err c ee, s2, l2) -> c <> CUnmodelled ->
+    eval (EIter (pre ++ x :: post)) o s = (Ok (VT T_ITER (vs ++ [VErr c])), s2, l1 ++ l2).
+  Proof.
+    intros Hpre Hx Hc. rewrite eval_iter_E, wrap_eval_out. bok (iter_defers _ _ _ post _ _ _ _ _ _ _ _ Hpre Hx Hc). fin.
+  Qed.
+
+  Lemma elems_ok_no_err o es s vs s1 l1 : elems_ok o es s vs s1 l1 -> first_err vs = None.
+  Proof.
+    induction 1 as [|x rest s v sa la vs sb lb Hx Hd Hrest IH]; [reflexivity|].
+    cbn [first_err]. destruct v; try exact IH. discriminate Hd.
+  Qed.
+  Lemma first_err_app vs c : first_err vs = None -> first_err (vs ++ [VErr c]) = Some c.
+  Proof.
+    induction vs as [|v vs IH]; intros H; [reflexivity|]. cbn [app first_err] in *.
+    destruct v; try (now apply IH). discriminate H.
+  Qed.
+
+  (** … and whoever consumes the iterable (here: [list(...)], the first step of an Apply)
+      gets the element's failure, as an EvaluationError with the element's cause *)
+  Theorem consumer_gets_the_element_failure o pre x post s vs s1 l1 c ee s2 l2 :
+    elems_ok o pre s vs s1 l1 -> eval x o s1 = (Err c ee, s2, l2) -> c <> CUnmodelled ->
+    eval (EApply (EIter (pre ++ x :: post)) (EValue (VF B_LIST [] []))) o s = (Err c true, s2, l1 ++ l2).
+  Proof.
+    intros Hpre Hx Hc. rewrite eval_apply_E, wrap_eval_out.
+    bok (iter_element_failure_is_deferred _ _ _ post _ _ _ _ _ _ _ _ Hpre Hx Hc).
+    bok (eq_refl : eval (EValue (VF B_LIST [] [])) o s2 = (Ok (VF B_LIST [] []), s2, [])).
+    rewrite call_value_VF. cbn [N.eqb B_LIST B_COMPOSE Pos.eqb app]. unfold call_fun. cbn [N.eqb B_LIST Pos.eqb].
+    berr (consumer_raises_deferred T_ITER (vs ++ [VErr c]) c s2 eq_refl
+            (first_err_app _ _ (elems_ok_no_err _ _ _ _ _ _ Hpre))).
+    fin.
+  Qed.
+
+  (** ** Only successes are stored.  The only call of [mem_store] in the interpreters is in the
+      CacheSetRequest step of a Cached node, which is reached only through the successful branch
+      of the bind on the body's evaluation.  Stated as a frame theorem that is STRONGER than
+      TraceProofs.store_frame: the relation [R] has to be respected only by stores of the shape
+      "the value [v] that the evaluation of the cached expression [e] under [o] just returned,
+      at the fingerprint of [e] under [o], into the node's cache" — not by arbitrary stores. *)
+  Definition after_store (cid : N) (e : expr) (o : dict) (v : value) : M value :=
+    bind (emit (EvCacheSet cid)) (fun _ =>
+    bind (if has_lazy v then emit (EvLazyStored cid) else ret tt) (fun _ =>
+    bind (fingerprint e o) (fun f' =>
+    bind (get_store S) (fun s =>
+      match mem_find cid f' s with
+      | Some _ => bind (emit (EvCacheGet cid true)) (fun _ => ret v)
+      | None => bind (emit (EvCacheGet cid false)) (fun _ => ret v)
+      end)))).
+  Lemma store_back_E cid e o v :
+    store_back cid e o v =
+      bind (fingerprint e o) (fun f =>
+      bind (put_store S (mem_store cid f (exhaust v))) (fun _ => after_store cid e o v)).
+  Proof. reflexivity. Qed.
+
+  Section OnlySuccesses.
+    Variable R : S -> S -> Prop.
+    Hypothesis R_refl : forall s, R s s.
+    Hypothesis R_trans : forall a b c, R a b -> R b c -> R a c.
+    Variable allowed : N -> bool.
+    Hypothesis R_store_success : forall cid e o s1 v s2 l1 f s3 lf,
+      allowed cid = true ->
+      eval e o s1 = (Ok v, s2, l1) -> fingerprint e o s2 = (Ok f, s3, lf) ->
+      R s3 (mem_store cid f (exhaust v) s3).
+
+    Notation fr := (fr S R).
+    Notation fr3 := (fr3 S mem_find mem_store cfg ucall rfuel site_ok R).
+    Notation PP := (PP S mem_find mem_store cfg ucall rfuel site_ok R allowed).
+    Notation caches_allowed := (caches_allowed allowed).
+
+    Let Fbind {A B} := @fr_bind S R R_trans A B.
+    Let Fret {A} := @fr_ret S R R_refl A.
+    Let Femit := fr_emit S R R_refl.
+    Let Fget := fr_get_store S R R_refl.
+
+    Lemma fr_after_store cid e o v : fr3 e -> fr (after_store cid e o v).
+    Proof.
+      intros He. unfold after_store. apply Fbind; [apply Femit|]. intros _.
+      apply Fbind; [destruct (has_lazy v); [apply Femit|apply Fret]|]. intros _.
+      apply Fbind; [now apply (fr_fingerprint S mem_find mem_store cfg ucall rfuel site_ok R R_refl R_trans)|].
+      intros f'. apply Fbind; [apply Fget|]. intros s0.
+      destruct (mem_find cid f' s0); (apply Fbind; [apply Femit|intros _; apply Fret]).
+    Qed.
+
+    (** the miss path: evaluate, and only when that SUCCEEDED store *)
+    Lemma fr_miss_path cid e o : allowed cid = true -> fr3 e -> fr (miss_path cid e o).
+    Proof.
+      intros Ha He s r s' l H. unfold TraceProofs.miss_path in H.
+      destruct (eval e o s) as [[[v|c ee] s1] l1] eqn:Ev.
+      - assert (R01 : R s s1) by (exact (proj1 (He o) _ _ _ _ Ev)).
+        rewrite (bind_okE S _ _ _ _ _ _ Ev) in H. rewrite store_back_E in H.
+        destruct (fingerprint e o s1) as [[[f|c ee] s2] l2] eqn:Ef.
+        + assert (R12 : R s1 s2)
+            by (exact (fr_fingerprint S mem_find mem_store cfg ucall rfuel site_ok R R_refl R_trans e o He _ _ _ _ Ef)).
+          rewrite (bind_okE S _ _ _ _ _ _ Ef) in H.
+          rewrite (bind_okE S _ _ _ _ _ _ (eq_refl : put_store S (mem_store cid f (exhaust v)) s2
+                                             = (Ok tt, mem_store cid f (exhaust v) s2, []))) in H.
+          cbv beta in H.
+          destruct (after_store cid e o v (mem_store cid f (exhaust v) s2)) as [[r3 s3] l3] eqn:Ea.
+          unfold TraceProofs.after in H. cbn [fst snd] in H. inversion H; subst r3 s3.
+          pose proof (fr_after_store cid e o v He _ _ _ _ Ea) as R3.
+          pose proof (R_store_success cid e o s v s1 l1 f s2 l2 Ha Ev Ef) as Rst.
+          eauto.
+        + assert (R12 : R s1 s2)
+            by (exact (fr_fingerprint S mem_find mem_store cfg ucall rfuel site_ok R R_refl R_trans e o He _ _ _ _ Ef)).
+          rewrite (bind_errE S _ _ _ _ _ _ _ Ef) in H. unfold TraceProofs.after in H. cbn [fst snd] in H.
+          inversion H; subst. eauto.
+      - rewrite (bind_errE S _ _ _ _ _ _ _ Ev) in H. inversion H; subst.
+        exact (proj1 (He o) _ _ _ _ Ev).
+    Qed.
+
+    Lemma success_ECached c e : PP e -> PP (ECached c e).
+    Proof.
+      intros H1 Hc. cbn [TraceProofs.caches_allowed] in Hc. apply andb_prop in Hc as [Ca Ce].
+      specialize (H1 Ce). destruct c as [cid|].
+      - pose proof (fun o => fr_miss_path cid e o Ca H1) as Hmiss.
+        pose proof (fun o => fr_fingerprint S mem_find mem_store cfg ucall rfuel site_ok R R_refl R_trans e o H1) as Hfp.
+        intros o. split; [|split].
+        + rewrite eval_cached_mem_E. apply fr_wrap. destruct (cache_off o); [exact (proj1 (H1 o))|].
+          unfold TraceProofs.cached_on. apply Fbind; [destruct (site_ok e o); [apply Fret|apply Femit]|].
+          intros _. apply Fbind; [apply Hfp|]. intros f.
+          apply Fbind; [apply Fget|]. intros s.
+          destruct (mem_find cid f s).
+          * apply Fbind; [apply Femit|]. intros _. apply Fbind; [apply Hfp|].
+            intros f2. apply Fbind; [apply Fget|]. intros s2.
+            destruct (mem_find cid f2 s2); (apply Fbind; [apply Femit|]); intros _;
+              [apply Fret|apply Hmiss].
+          * apply Fbind; [apply Femit|]. intros _. apply Hmiss.
+        + rewrite validate_cached_mem_E. destruct (cache_off o); [exact (proj1 (proj2 (H1 o)))|].
+          apply Fbind; [exact (proj2 (proj2 (H1 o)))|]. intros ks.
+          apply Fbind; [apply (fr_fingerprint_of S R R_refl R_trans)|]. intros f.
+          apply Fbind; [apply Fget|]. intros s. destruct (mem_find cid f s).
+          * apply Fbind; [apply Femit|intros _; apply Fret].
+          * apply Fbind; [apply Femit|intros _; exact (proj1 (proj2 (H1 o)))].
+        + rewrite keys_cached_E. exact (proj2 (proj2 (H1 o))).
+      - intros o. split; [|split].
+        + rewrite eval_cached_none_E. apply fr_wrap. exact (proj1 (H1 o)).
+        + rewrite validate_cached_none_E. exact (proj1 (proj2 (H1 o))).
+        + rewrite keys_cached_E. exact (proj2 (proj2 (H1 o))).
+    Qed.
+
+    (** EVERY run of evaluate / validate / keys — failing or not — relates its initial store to
+        its final store by [R] *)
+    Theorem only_successes_are_stored e : caches_allowed e = true -> fr3 e.
+    Proof.
+      induction e using expr_ind'.
+      - intros _ o. split; [|split].
+        + rewrite eval_value_E. apply fr_wrap, Fret.
+        + rewrite validate_value_E. apply Fret.
+        + rewrite keys_value_E. apply Fret.
+      - now apply (frame_EOption S mem_find mem_store cfg ucall rfuel site_ok R R_refl R_trans allowed).
+      - now apply (frame_EApply S mem_find mem_store cfg ucall rfuel site_ok R R_refl R_trans allowed).
+      - now apply (frame_EBind S mem_find mem_store cfg ucall rfuel site_ok R R_refl R_trans allowed).
+      - now apply (frame_ESwitch S mem_find mem_store cfg ucall rfuel site_ok R R_refl R_trans allowed).
+      - now apply (frame_ECase S mem_find mem_store cfg ucall rfuel site_ok R R_refl R_trans allowed).
+      - now apply (frame_ECoalesce S mem_find mem_store cfg ucall rfuel site_ok R R_refl R_trans allowed).
+      - now apply (frame_EIter S mem_find mem_store cfg ucall rfuel site_ok R R_refl R_trans allowed).
+      - now apply (frame_EMap S mem_find mem_store cfg ucall rfuel site_ok R R_refl R_trans allowed).
+      - now apply (frame_EWith S mem_find mem_store cfg ucall rfuel site_ok R R_refl R_trans allowed).
+      - now apply success_ECached.
+      - now apply (frame_ECall S mem_find mem_store cfg ucall rfuel site_ok R R_refl R_trans allowed).
+      - now apply (frame_ETemplate S mem_find mem_store cfg ucall rfuel site_ok R R_refl R_trans allowed).
+      - now apply (frame_EComp S mem_find mem_store cfg ucall rfuel site_ok R R_refl R_trans allowed).
+      - now apply (frame_ELogged S mem_find mem_store cfg ucall rfuel site_ok R R_refl R_trans allowed).
+      - now apply (frame_EPipe S mem_find mem_store cfg ucall rfuel site_ok R R_refl R_trans allowed).
+      - intros _ o. split; [|split].
+        + rewrite eval_alloptions_E. apply fr_wrap, (fr_all_options_eval S rfuel R R_refl R_trans).
+        + rewrite validate_alloptions_E.
+          apply Fbind; [apply fr_wrap, (fr_all_options_eval S rfuel R R_refl R_trans)|intros; apply Fret].
+        + rewrite keys_alloptions_E. apply Fbind; [apply Femit|intros; apply Fret].
+    Qed.
+  End OnlySuccesses.
+
+  (** the smallest relation of that kind: the stores reachable by storing successes *)
+  Inductive stored_successes : S -> S -> Prop :=
+  | ss_refl s : stored_successes s s
+  | ss_trans a b c : stored_successes a b -> stored_successes b c -> stored_successes a c
+  | ss_store cid e o s1 v s2 l1 f s3 lf :
+      eval e o s1 = (Ok v, s2, l1) -> fingerprint e o s2 = (Ok f, s3, lf) ->
+      stored_successes s3 (mem_store cid f (exhaust v) s3).
+
+  Lemma all_caches_allowed e : caches_allowed (fun _ => true) e = true.
+  Proof.
+    assert (HL : forall l, Forall (fun x => caches_allowed (fun _ => true) x = true) l ->
+                           forallb (caches_allowed (fun _ => true)) l = true).
+    { intros l H. apply forallb_forall. now rewrite Forall_forall in H. }
+    assert (HS : forall K (l : list (K * expr)),
+               Forall (fun ve => caches_allowed (fun _ => true) (snd ve) = true) l ->
+               forallb (fun ve => caches_allowed (fun _ => true) (snd ve)) l = true).
+    { intros K l H. apply forallb_forall. now rewrite Forall_forall in H. }
+    assert (HO : forall d, Popt (fun x => caches_allowed (fun _ => true) x = true) d ->
+                           optb (caches_allowed (fun _ => true)) d = true).
+    { intros [d|] H; [exact H|reflexivity]. }
+    induction e using expr_ind'; cbn [caches_allowed]; try reflexivity;
+      repeat (apply andb_true_intro; split); auto.
+    - (* case *)
+      apply forallb_forall. intros cr Hcr. rewrite Forall_forall in H. destruct (H cr Hcr) as [A B].
+      now rewrite A, B.
+    - destruct c; reflexivity.
+  Qed.
+
+  (** NO FAILURE IS EVER STORED: every run of evaluate (validate, keys), failing or not, changes
+      the store only by storing values that evaluations of cached expressions just returned *)
+  Theorem every_store_is_of_a_success e o :
+    (forall s r s' l, eval e o s = (r, s', l) -> stored_successes s s') /\
+    (forall s r s' l, validate e o s = (r, s', l) -> stored_successes s s') /\
+    (forall s r s' l, keys e o s = (r, s', l) -> stored_successes s s').
+  Proof.
+    pose proof (only_successes_are_stored stored_successes ss_refl ss_trans (fun _ => true)
+                  (fun cid e o s1 v s2 l1 f s3 lf _ Hv Hf => ss_store cid e o s1 v s2 l1 f s3 lf Hv Hf)
+                  e (all_caches_allowed e) o) as [A [B C]].
+    split; [exact A|split; [exact B|exact C]].
+  Qed.
+
+  (** what such a store sequence can contain, given that a lookup after a store finds either
+      the stored value or what was there before (true of the real store, below) *)
+  Section Entries.
+    Hypothesis find_after_store : forall c f v s c' f' w,
+      mem_find c' f' (mem_store c f v s) = Some w -> w = v \/ mem_find c' f' s = Some w.
+
+    Definition produced (w : value) : Prop :=
+      exists e o s1 v s2 l1, eval e o s1 = (Ok v, s2, l1) /\ w = exhaust v.
+
+    Lemma stored_successes_entries s s' :
+      stored_successes s s' ->
+      forall c f w, mem_find c f s' = Some w -> mem_find c f s = Some w \/ produced w.
+    Proof.
+      induction 1 as [s|a b c0 Hab IHab Hbc IHbc|cid e o s1 v s2 l1 f s3 lf Hv Hf]; intros c f' w Hw.
+      - now left.
+      - destruct (IHbc _ _ _ Hw) as [Hb|Hp]; [|now right]. now apply IHab.
+      - destruct (find_after_store _ _ _ _ _ _ _ Hw) as [->|Hold]; [|now left].
+        right. exists e, o, s1, v, s2, l1. now split.
+    Qed.
+
+    (** A FAILED EVALUATION IS FORGOTTEN: after it, every entry of every cache is an entry that
+        was there before, or the value that a successful evaluation of a cached expression
+        returned during the run *)
+    Theorem failure_is_forgotten e o s c ee s' l :
+      eval e o s = (Err c ee, s', l) ->
+      forall cid f w, mem_find cid f s' = Some w -> mem_find cid f s = Some w \/ produced w.
+    Proof.
+      intros H. apply stored_successes_entries. exact (proj1 (every_store_is_of_a_success e o) _ _ _ _ H).
+    Qed.
+  End Entries.
+
+  (** the failing node itself: a Cached node whose expression fails to evaluate fails with that
+      cause, and the run performed no store into its cache — [R] is any relation respected by
+      stores into OTHER caches ([allowed]); the node's own cache need not be among them *)
+  Theorem failing_body_is_not_stored (R : S -> S -> Prop) (allowed : N -> bool) cid e o s f s1 l1 c ee s2 l2 :
+    (forall s, R s s) -> (forall a b c, R a b -> R b c -> R a c) ->
+    (forall c f v s, allowed c = true -> R s (mem_store c f v s)) ->
+    caches_allowed allowed e = true ->
+    cache_off o = false -> fingerprint e o s = (Ok f, s1, l1) -> mem_find cid f s1 = None ->
+    eval e o s1 = (Err c ee, s2, l2) ->
+    eval (ECached (CMem cid) e) o s =
+      (Err c true, s2, (dirty_evs cid e o ++ l1 ++ [EvCacheExists cid false]) ++ l2) /\ R s s2.
+  Proof.
+    intros Rr Rt Rs Hc Hoff Hf Hm Hx. split.
+    - eapply strict_pos_propagates; [eapply sp_cached_miss; eauto|exact Hx].
+    - pose proof (store_frame S mem_find mem_store cfg ucall rfuel site_ok R Rr Rt allowed Rs e Hc) as F3.
+      eapply Rt.
+      + exact (fr_fingerprint S mem_find mem_store cfg ucall rfuel site_ok R Rr Rt e o F3 _ _ _ _ Hf).
+      + exact (proj1 (F3 o) _ _ _ _ Hx).
+  Qed.
 End C12.
+
+(** * The real memo store (Model/EvalRun.v) *)
+Lemma c12_tok_eqb_eq a b : tok_eqb a b = true <-> a = b.
+Proof.
+  destruct a, b; cbn; split; intros H; try discriminate; try reflexivity.
+  - apply N.eqb_eq in H. now subst.
+  - inversion H. apply N.eqb_refl.
+  - apply key_eqb_eq in H. now subst.
+  - inversion H. apply key_eqb_refl.
+  - apply N.eqb_eq in H. now subst.
+  - inversion H. apply N.eqb_refl.
+Qed.
+Lemma c12_str_eqb_eq a : forall b, str_eqb a b = true <-> a = b.
+Proof.
+  induction a as [|x a IH]; destruct b as [|y b]; cbn; split; intros H; try discriminate; try reflexivity.
+  - apply andb_prop in H as [H1 H2]. apply c12_tok_eqb_eq in H1. apply IH in H2. now subst.
+  - inversion H; subst. apply andb_true_intro. split; [now apply c12_tok_eqb_eq|now apply IH].
+Qed.
+Lemma c12_json_eqb_eq a : forall b, json_eqb a b = true <-> a = b.
+Proof.
+  induction a using json_ind'; intros b0; destruct b0; cbn [json_eqb]; split; intros E;
+    try discriminate; try reflexivity.
+  - apply Bool.eqb_prop in E. now subst.
+  - inversion E. apply Bool.eqb_reflx.
+  - apply Z.eqb_eq in E. now subst.
+  - inversion E. apply Z.eqb_refl.
+  - apply N.eqb_eq in E. now subst.
+  - inversion E. apply N.eqb_refl.
+  - apply c12_str_eqb_eq in E. now subst.
+  - inversion E. now apply c12_str_eqb_eq.
+  - f_equal. revert l0 E. induction H as [|x l Hx Hl IH]; intros [|y l0] E; try discriminate; [reflexivity|].
+    apply andb_prop in E as [E1 E2]. apply Hx in E1. apply IH in E2. now subst.
+  - inversion E; subst l0. clear E. induction H as [|x l Hx Hl IH]; [reflexivity|].
+    apply andb_true_intro. split; [now apply Hx|exact IH].
+  - f_equal. revert m0 E. induction H as [|[k x] m Hx Hm IH]; intros [|[k' y] m0] E; try discriminate; [reflexivity|].
+    apply andb_prop in E as [E1 E3]. apply andb_prop in E1 as [E1 E2].
+    apply seg_eqb_eq in E1. cbn [snd] in Hx. apply Hx in E2. apply IH in E3. now subst.
+  - inversion E; subst m0. clear E. induction H as [|[k x] m Hx Hm IH]; [reflexivity|].
+    apply andb_true_intro. split; [apply andb_true_intro; split|exact IH].
+    + apply seg_eqb_refl.
+    + cbn [snd] in Hx. now apply Hx.
+Qed.
+Lemma c12_fp_eqb_eq a : forall b, fp_eqb a b = true <-> a = b.
+Proof.
+  unfold fp_eqb. induction a as [|[k v] a IH]; destruct b as [|[k' v'] b]; split; intros E;
+    try discriminate; try reflexivity.
+  - apply andb_prop in E as [E1 E3]. apply andb_prop in E1 as [E1 E2].
+    apply key_eqb_eq in E1. apply c12_json_eqb_eq in E2. apply IH in E3. now subst.
+  - inversion E; subst. apply andb_true_intro. split; [apply andb_true_intro; split|now apply IH].
+    + apply key_eqb_refl.
+    + now apply c12_json_eqb_eq.
+Qed.
+
+Lemma fp_find_after_put f v l f' w :
+  fp_find f' (fp_put f v l) = Some w -> w = v \/ fp_find f' l = Some w.
+Proof.
+  induction l as [|[g u] l IH]; cbn [fp_put fp_find]; intros H.
+  - destruct (fp_eqb f' f); [left; congruence|discriminate].
+  - destruct (fp_eqb f g) eqn:E; cbn [fp_find] in H.
+    + apply c12_fp_eqb_eq in E. subst g. destruct (fp_eqb f' f); [left; congruence|now right].
+    + destruct (fp_eqb f' g); [now right|now apply IH].
+Qed.
+Lemma st_get_after_put c l s c' :
+  st_get c' (st_put c l s) = if N.eqb c' c then l else st_get c' s.
+Proof.
+  induction s as [|[d l'] s IH]; cbn [st_put st_get].
+  - reflexivity.
+  - destruct (N.eqb c d) eqn:E; cbn [st_get].
+    + apply N.eqb_eq in E. subst d. destruct (N.eqb c' c); reflexivity.
+    + destruct (N.eqb c' d) eqn:E2.
+      * apply N.eqb_eq in E2. subst d.
+        destruct (N.eqb c' c) eqn:E3; [|reflexivity].
+        apply N.eqb_eq in E3. subst c'. rewrite N.eqb_refl in E. discriminate.
+      * exact IH.
+Qed.
+Lemma real_find_after_store c f v s c' f' w :
+  mem_find c' f' (mem_store c f v s) = Some w -> w = v \/ mem_find c' f' s = Some w.
+Proof.
+  unfold mem_find, mem_store. rewrite st_get_after_put. destruct (N.eqb c' c) eqn:E; [|now right].
+  apply N.eqb_eq in E. subst c'. apply fp_find_after_put.
+Qed.
+Lemma real_store_other_cache c f v s cid :
+  negb (N.eqb c cid) = true -> st_get cid (mem_store c f v s) = st_get cid s.
+Proof.
+  intros H. unfold mem_store. rewrite st_get_after_put. destruct (N.eqb cid c) eqn:E; [|reflexivity].
+  apply N.eqb_eq in E. subst c. rewrite N.eqb_refl in H. discriminate.
+Qed.
+
+Section RealStore.
+  Variable cfg : config.
+  Variable ucall : N -> list value -> cres.
+  Variable rfuel : nat.
+  Variable site_ok : expr -> dict -> bool.
+  Notation eval := (Eval.eval store mem_find mem_store cfg ucall rfuel site_ok).
+  Notation fingerprint := (fingerprint store mem_find mem_store cfg ucall rfuel site_ok).
+
+  (** on the real store: after a FAILED evaluation every cache entry was there before or is a
+      value that a successful evaluation of a cached expression returned *)
+  Theorem real_failure_is_forgotten e o s c ee s' l :
+    eval e o s = (Err c ee, s', l) ->
+    forall cid f w, mem_find cid f s' = Some w ->
+      mem_find cid f s = Some w \/ produced store mem_find mem_store cfg ucall rfuel site_ok w.
+  Proof.
+    exact (failure_is_forgotten store mem_find mem_store cfg ucall rfuel site_ok real_find_after_store e o s c ee s' l).
+  Qed.
+
+  (** on the real store: a Cached node (no other node of its expression uses its cache) whose
+      expression fails leaves the WHOLE content of its cache as it was *)
+  Theorem real_failed_cached_eval_stores_nothing cid e o s f s1 l1 c ee s2 l2 :
+    caches_allowed (fun c => negb (N.eqb c cid)) e = true ->
+    cache_off cfg o = false -> fingerprint e o s = (Ok f, s1, l1) -> mem_find cid f s1 = None ->
+    eval e o s1 = (Err c ee, s2, l2) ->
+    eval (ECached (CMem cid) e) o s =
+      (Err c true, s2, (dirty_evs site_ok cid e o ++ l1 ++ [EvCacheExists cid false]) ++ l2)
+    /\ st_get cid s2 = st_get cid s.
+  Proof.
+    intros Hc Hoff Hf Hm Hx.
+    apply (failing_body_is_not_stored store mem_find mem_store cfg ucall rfuel site_ok
+             (fun a b => st_get cid b = st_get cid a) (fun c => negb (N.eqb c cid))
+             cid e o s f s1 l1 c ee s2 l2); auto.
+    - intros a b d H1 H2. congruence.
+    - intros c0 f0 v0 s0 H. now apply real_store_other_cache.
+  Qed.
+End RealStore.
